@@ -383,6 +383,31 @@ def _len_sources(b, op, depth=8):
     return out
 
 
+def _int_roots(b, op, depth=8):
+    """Locals an integer operand is a plain copy / cast / sum of."""
+    pl = op_place(op)
+    if pl is None or depth < 0:
+        return set()
+    ds = b.defs().get(pl["l"], [])
+    if len(ds) == 1 and ds[0][2] == "assign" and not ds[0][3]["place"]["p"] and ds[0][3]["rv"]["k"] in ("use", "cast", "bin"):
+        out = set()
+        for a in ds[0][3]["rv"].get("a", []):
+            out |= _int_roots(b, a, depth - 1)
+        return out
+    return {pl["l"]}
+
+
+def _split_len(b, root):
+    """`root` is the front part of `x.split_at(n)`: -> the operand n (its length by definition), else None."""
+    l, proj = root
+    if "'f': 0" not in proj or "tuple" not in proj:
+        return None
+    ds = b.defs().get(l, [])
+    if len(ds) == 1 and ds[0][2] == "call" and (ds[0][3].decl_s or ds[0][3].name).endswith(("slice::split_at", "slice::split_at_mut")) and len(ds[0][3].args) == 2:
+        return ds[0][3].args[1]
+    return None
+
+
 def cursor(prog, rep, tag):
     """The read position moves by exactly what was delivered: every `byte_pos +=` adds the length of the very slice
     that is copied into the caller's buffer next to it (the truncated last chunk, not the whole chunk it was cut from).
@@ -394,23 +419,35 @@ def cursor(prog, rep, tag):
         if kind != "write":
             continue
         st = b.stmts(bi)[si]
-        srcs = set()
+        srcs, ints = set(), set()
         for a in st["rv"].get("a", []):
             srcs |= _len_sources(b, a)
-        incs.append((bi, srcs))
+            ints |= _int_roots(b, a)
+        incs.append((bi, srcs, ints))
     copies = []
     for c in b.calls():
         if (c.decl_s or c.name).endswith("slice::copy_from_slice") and len(c.args) == 2:
             copies.append((c.bb, _slice_root(b, c.args[1]), c))
-    inc_blocks = {bi for bi, _ in incs}
+    inc_blocks = {bi for bi, _, _ in incs}
     ok = bool(incs) and bool(copies)
     why = []
+
+    def by_len_of(srcs, ints, root):
+        """the increment adds len(root): literally, or as the n of `root = x.split_at(n).0`"""
+        if srcs == {root}:
+            return True
+        n = _split_len(b, root) if root is not None else None
+        if n is not None and not srcs:
+            nr = _int_roots(b, n)
+            return bool(nr) and nr <= ints
+        return False
+
     for cb, root, c in copies:
-        mates = [(bi, srcs) for bi, srcs in incs if (b.dominates(bi, cb) or b.dominates(cb, bi))]
-        if not any(srcs == {root} for bi, srcs in mates):
+        mates = [(bi, srcs, ints) for bi, srcs, ints in incs if (b.dominates(bi, cb) or b.dominates(cb, bi))]
+        if not any(by_len_of(srcs, ints, root) for bi, srcs, ints in mates):
             ok = False
             why.append("the copy at %s has no cursor increment by the length of the slice it copies" % c.span)
-    for bi, srcs in incs:
+    for bi, srcs, ints in incs:
         # copies reached from this increment before any other increment
         seen, todo = set(), list(b.succ(bi))
         while todo:
@@ -420,7 +457,7 @@ def cursor(prog, rep, tag):
             seen.add(x)
             todo += b.succ(x)
         for cb, root, c in copies:
-            if (cb in seen or cb == bi) and b.dominates(bi, cb) and srcs != {root}:
+            if (cb in seen or cb == bi) and b.dominates(bi, cb) and not by_len_of(srcs, ints, root):
                 ok = False
                 why.append("the increment in bb%d adds the length of another slice than the one copied at %s" % (bi, c.span))
     rep.ob(P, "cursor-advances-by-bytes-copied" + tag, ok, "every byte_pos increment adds the length of exactly the slice copied out beside it (%d increments, %d copies)%s" % (len(incs), len(copies), ("; " + "; ".join(why)) if why else ""), loc=b.span, how="dataflow")
